@@ -41,8 +41,8 @@ CONTRACT = [
     ("ColumnMetadata.hed_dict", ["self._source[self.column_name]"], "the column's sidecar entry"),
     ("ColumnMetadata._detect_column_type", ["dict_for_entry", "dict_for_entry['HED']"], "the column entry / its HED value"),
     ("SidecarValidator._check_for_key", ["data"], "a nested sidecar value"),
-    ("Sidecar.load_sidecar_files", ["self.load_sidecar_file(file)"], "the decoded top-level document"),
-    ("BidsSidecarFile.is_hed", ["json_dict", "value"], "the merged document / a column entry"),
+    ("Sidecar.load_sidecar_files", [("call", "load_sidecar_file")], "the decoded top-level document"),
+    ("BidsSidecarFile.is_hed", ["json_dict", ("values-of", "json_dict")], "the merged document / a column entry"),
 ]
 
 
@@ -117,11 +117,16 @@ def run(ctx):
     sites = [(n, c) for (n, c) in v.calls(lambda c: call_name(c) == vcc.name)]
     ctx.floor("R8.1", "call sites of _validate_categorical_column", len(sites), 1)
     for n, c in sites:
-        g = v.guard_for(n, lambda t: mentions(t, "Categorical") and mentions(t, "column_type"))
+        g = v.guard_for(n, lambda t: mentions(t, "Categorical") and mentions(t, "ColumnType"))
         ok = g is not None and g[1] is True
         # column_type must come from _detect_column_type (which establishes isinstance(hed_entry, dict))
         rd = ReachingDefs(vcs)
-        defs = rd.at(c, "column_type") or []
+        tested = None
+        if g is not None:
+            for x in ast.walk(g[0].ast):
+                if isinstance(x, ast.Compare) and isinstance(x.left, ast.Name) and mentions(x, "Categorical"):
+                    tested = x.left.id
+        defs = (rd.at(c, tested) or []) if tested else []
         ok = ok and bool(defs) and all(d.kind == "assign" and isinstance(d.value, ast.Call) and
                                        call_name(d.value) == "_detect_column_type" for d in defs)
         ctx.check(ok, "R8.1", vcs.qualname, c, loc(vcs, c),
